@@ -80,7 +80,7 @@ def model(ctx: Ctx) -> None:
 
 
 def run(ctx: Ctx) -> dict:
-    env = ctx.frozen(banks=True)
+    env = c06.algos_env(ctx, ctx.frozen(banks=True))
     if ctx.replay:
         calls.replay(ctx, "TraceGenerate", env, None, keyfn)
         return {}
